@@ -20,7 +20,12 @@ COVER = ("multi-step histories on one long-lived module (train / eval / frozen /
          "process-wide torch settings around calls (deterministic-algorithms mode incl. NaN-filled uninitialised memory, bfloat16 / float64 default dtype), train() / eval() toggled on single "
          "sub-modules or groups, checkpoints loaded from plain dicts without _metadata and through torch.save of the whole module, sign-symmetric / duplicated / collinear first batches, level counts "
          "in the hundreds under bfloat16 / float16 / autocast with saturated tokens, calls with codebook_transform_fn, k-means-initialised codebooks outside the EMA in process groups, and an "
-         "inventory of every in-place write through a reshape / view handle. In addition every function the property depends on is fingerprinted, so an edit is noticed - what matters "
+         "inventory of every in-place write through a reshape / view handle; modules cast to float16 / bfloat16 and back, blanket .type(dtype) casts of all buffers, code transforms that couple the "
+         "codes (BatchNorm), projections re-parametrised by weight_norm / prune hooks, codebooks written through the public setter from tensors that require grad, decoders called with 0-dim / -1 / "
+         "python-int indices, lens= in narrow integer dtypes on long sequences, float64 inputs with detail below float32 resolution, integer / half inputs at pixel magnitudes, aged states (running "
+         "sums decayed by 2^-40), histories of more than a thousand updates before a checkpoint, partial strict=False checkpoints before the first batch, one-bit codebooks and other size-1 axes, "
+         "a throw-away module built before the process group exists, the caller writing in place into everything any layer returns, and configurations the library rejects today being re-probed "
+         "on every run. In addition every function the property depends on is fingerprinted, so an edit is noticed - what matters "
          "is whether a concrete failing input is then found")
 for pid in ids:
     p = props[pid]
@@ -44,7 +49,7 @@ Your job: produce ONE small, realistic source change (1-12 changed lines inside 
  - TWO cooperating sites that each look fine alone;
  - a violation that needs a particular MULTI-STEP history or a particular combination of legal options and input values nobody would think of enumerating;
  - an "optimisation" that is wrong only sometimes (numerically: only for particular magnitudes or exact ties; structurally: only for particular shapes such as a batch of one, one code, one head, dim 1; temporally: only on the n-th call);
- - an interaction with a torch feature the checkers did not list (torch.compile is NOT available; think of outputs that alias the caller's tensor, each other or the module's state (the caller then writes into them), codebooks or sub-modules shared between two parents, forward / load_state_dict hooks registered by the caller, load_state_dict(strict=False) with missing or extra keys, state_dict(keep_vars=True), shallow copy.copy, subclasses overriding a helper, modules moved with .double() / .half() after training and back, very long sequences or b = n = 1, heads = codebook_size = 1, inputs that are integer- or bool-typed, nested no_grad inside training, a python-level random.seed / torch.manual_seed called by the library, weight decay or gradient clipping applied by the caller between calls).
+ - an interaction with a torch feature the checkers did not list (torch.compile is NOT available; think of codebooks or sub-modules SHARED between two parents (tied weights), shallow copy.copy of a module, a subclass overriding one helper, the same module called re-entrantly from a forward hook, torch.func.functional_call / stateless use with substituted buffers, a caller-registered forward pre-hook that changes the mask or input, results depending on the ORDER of keyword arguments or on passing defaults explicitly (mask=None, indices=None, lens=None given explicitly), the same tensor object passed as two arguments, extremely unbalanced batches (one sample of length 1 next to one of length 4096), repeated identical calls where the n-th differs, state carried in function attributes / module-level globals / lru_cache keyed by shapes, and numerical edge values that are legal but unusual (subnormals, -0.0, values just below a power of two)).
 Do not make changes that merely crash; the code should run and silently violate the property. AVOID these already-tried ideas: {' || '.join(tried) if tried else '(none recorded)'}
 
 Deliverables (write them into {wt}/_seeded/ , create the directory):
